@@ -75,6 +75,46 @@ def values():
     ]
 
 
+class ListSink:
+    """a stream that is FALSY while empty (a list-backed recorder with __len__)"""
+    def __init__(self):
+        self.parts = []
+
+    def write(self, text):
+        self.parts.append(text)
+        return len(text)
+
+    def __len__(self):
+        return len(self.parts)
+
+    def getvalue(self):
+        return ''.join(self.parts)
+
+
+class WriteOnly:
+    """nothing but write(); always falsy"""
+    def __init__(self):
+        self.parts = []
+
+    def write(self, text):
+        self.parts.append(text)
+
+    def __bool__(self):
+        return False
+
+    def getvalue(self):
+        return ''.join(self.parts)
+
+
+_STREAM_KINDS = [io.StringIO, ListSink, WriteOnly]
+_stream_n = [0]
+
+
+def new_stream():
+    _stream_n[0] += 1
+    return _STREAM_KINDS[_stream_n[0] % 3]()
+
+
 def effective(model, ex):
     eff = dict(model)
     eff.update(ex)
@@ -194,14 +234,14 @@ def run_history(arg):
                         if 'depth' in ex:
                             pos.append(rest.pop('depth'))
                     expect('pformat-positional', pp.pformat(v, *pos, **rest))
-                    st = io.StringIO()
+                    st = new_stream()
                     pp.pprint(v, st, *pos, **rest)
                     expect('pprint-positional', st.getvalue(), want + '\n')
                 for end in ends:
-                    st = io.StringIO()
+                    st = new_stream()
                     pp.pprint(v, stream=st, end=end, **ex)
                     expect('pprint', st.getvalue(), want + end)
-                    st = io.StringIO()
+                    st = new_stream()
                     pp.cpprint(v, stream=st, end=end, **ex)
                     expect('cpprint(color off)', st.getvalue(), want + end)
                 old = sys.stdout
@@ -217,7 +257,7 @@ def run_history(arg):
             try:
                 printer = pp.PrettyPrinter(**ex)
                 expect('PrettyPrinter.pformat', printer.pformat(v))
-                st = io.StringIO()
+                st = new_stream()
                 pp.PrettyPrinter(stream=st, **ex).pprint(v)
                 expect('PrettyPrinter.pprint', st.getvalue(), want + '\n')
             except Exception as e:
